@@ -341,8 +341,55 @@ func genNameModel(tt *tagTables) *rapid.Generator[*nameModel] {
 			sort.Slice(res, func(i, j int) bool { return res[i].Tag < res[j].Tag })
 			return res
 		}
-		m.Mac = build(pick(macTags, nMac, "macTag"), tt.mac, true)
-		m.Win = build(pick(winTags, nWin, "winTag"), tt.win, false)
+		macPick, winPick := pick(macTags, nMac, "macTag"), pick(winTags, nWin, "winTag")
+		// a tag that both platforms use, placed so that its Macintosh records
+		// are the last Macintosh records and its Windows records the first
+		// Windows records of the sorted table (records of the two platforms
+		// for one language then stand next to each other)
+		var both []string
+		for _, a := range macTags {
+			for _, b := range winTags {
+				if a == b {
+					both = append(both, a)
+				}
+			}
+		}
+		if len(both) > 0 && rapid.IntRange(0, 7).Draw(t, "sharedTagAtBoundary") == 0 {
+			tag := rapid.SampledFrom(both).Draw(t, "sharedTag")
+			maxOf := func(tab []langEntry, tg string) int {
+				v := -1
+				for _, id := range idsOfTag(tab, tg) {
+					if int(id) > v {
+						v = int(id)
+					}
+				}
+				return v
+			}
+			minOf := func(tab []langEntry, tg string) int {
+				v := 1 << 20
+				for _, id := range idsOfTag(tab, tg) {
+					if int(id) < v {
+						v = int(id)
+					}
+				}
+				return v
+			}
+			keepMac := []string{tag}
+			for _, tg := range macPick {
+				if tg != tag && maxOf(tt.mac, tg) < minOf(tt.mac, tag) {
+					keepMac = append(keepMac, tg)
+				}
+			}
+			keepWin := []string{tag}
+			for _, tg := range winPick {
+				if tg != tag && minOf(tt.win, tg) > maxOf(tt.win, tag) {
+					keepWin = append(keepWin, tg)
+				}
+			}
+			macPick, winPick = keepMac, keepWin
+		}
+		m.Mac = build(macPick, tt.mac, true)
+		m.Win = build(winPick, tt.win, false)
 		return m
 	})
 }
